@@ -94,14 +94,15 @@ def _repdot(v, params):
     zmode = v['kind'] == 'refused' and 'Z' in fl and inp.get('mode') == 'glob'
     path = any(nd[0] == 'sep' for nd in seq) or inp.get('mode') in ('path', 'glob') or v.get('path')
     segs_n = [x for x in name.replace('\\', '/').split('/') if x] if (path or '/' in name) else [name]
-    if 'D' in fl or zmode:
-        import re as _re
-        if not any(_re.search(r'(?s).\.{1,2}\n?$', x) for x in segs_n):
+    import re as _re
+    ends_dots = any(_re.search(r'(?s).\.{1,2}\n?$', x) for x in segs_n)
+    # an interior dot; for C03's "refused" cases the segment may itself start with a (written, accepted) dot
+    interior = any('.' in x[1:] and (x[:1] != '.' or v['kind'] == 'refused') for x in segs_n)
+    if 'D' in fl:
+        if not ends_dots:
             return False
-    else:
-        # an interior dot; for C03's "refused" cases the segment may itself start with a (written, accepted) dot
-        if not any('.' in x[1:] and (x[:1] != '.' or v['kind'] == 'refused') for x in segs_n):
-            return False
+    elif not (interior or (zmode and ends_dots)):
+        return False
     pols = set()
     cur = []
     for nd in list(seq) + [('sep', 1, False)]:
@@ -289,10 +290,22 @@ def _nullstart_cls(v, params):
     return any(_nullstart(sg, path, False, groups_only and not zmode, zmode) for sg in _segments(seq))
 
 
+def _starts_with_dot(alt):
+    """The alternative begins with a written dot, directly or as the beginning of a group that begins it."""
+    if not alt:
+        return False
+    nd = alt[0]
+    if nd[0] == 'lit':
+        return nd[1] == '.'
+    if nd[0] == 'ext':
+        return any(_starts_with_dot(a) for a in nd[2])
+    return False
+
+
 def _neg_has_dot_alt(seq):
     for nd in seq:
         if nd[0] == 'ext':
-            if nd[1] == '!' and any(a and a[0][0] == 'lit' and a[0][1] == '.' for a in nd[2]):
+            if nd[1] == '!' and any(_starts_with_dot(a) for a in nd[2]):
                 return True
             if any(_neg_has_dot_alt(a) for a in nd[2]):
                 return True
